@@ -25,6 +25,7 @@ type C15Arg struct {
 	Entries []tarx.Entry `json:"entries"`
 	Format  int          `json:"format"`
 	UID     int          `json:"uid,omitempty"`
+	Members bool         `json:"members,omitempty"` // the gzip layer has two members, split after the first entry
 }
 
 type C15Out struct {
@@ -51,6 +52,9 @@ func c15Handler(raw json.RawMessage) (any, error) {
 	}
 	out.PaxUsed = bytes.Contains(rawTar, []byte("PaxHeaders")) || bytes.Contains(rawTar, []byte("pax_global_header"))
 	data := tarx.Gzip(rawTar)
+	if arg.Members {
+		data = tarx.GzipTwoMembers(rawTar)
+	}
 	dec, err := tarx.Decode(data)
 	if err != nil {
 		return nil, fmt.Errorf("independent decode failed: %v", err)
@@ -271,26 +275,29 @@ func RunC15(tier string) int {
 		deadline = time.Now().Add(25 * time.Minute)
 	}
 	type plan struct {
-		core   bool
-		depth  int
-		format int
-		uid    int
+		core    bool
+		depth   int
+		format  int
+		uid     int
+		members bool
 	}
 	formats := []int{int(tar.FormatUSTAR), int(tar.FormatPAX), int(tar.FormatGNU)}
 	var plans []plan
 	for _, uid := range []int{0, 65534} {
 		for _, f := range formats {
 			if thorough {
-				plans = append(plans, plan{false, 3, f, uid})
+				plans = append(plans, plan{false, 3, f, uid, false})
 			} else {
-				plans = append(plans, plan{false, 2, f, uid})
+				plans = append(plans, plan{false, 2, f, uid, false})
 			}
 		}
 	}
 	if !thorough {
-		plans = append(plans, plan{true, 3, int(tar.FormatPAX), 65534}, plan{true, 3, int(tar.FormatUSTAR), 0})
+		plans = append(plans, plan{true, 3, int(tar.FormatPAX), 65534, false}, plan{true, 3, int(tar.FormatUSTAR), 0, false})
+		plans = append(plans, plan{true, 2, int(tar.FormatPAX), 0, true})
 	} else {
-		plans = append(plans, plan{true, 4, int(tar.FormatPAX), 65534}, plan{true, 4, int(tar.FormatPAX), 0})
+		plans = append(plans, plan{true, 4, int(tar.FormatPAX), 65534, false}, plan{true, 4, int(tar.FormatPAX), 0, false})
+		plans = append(plans, plan{false, 2, int(tar.FormatPAX), 0, true}, plan{true, 3, int(tar.FormatUSTAR), 65534, true})
 	}
 	pools := map[int]*core.Pool{}
 	var planStats []map[string]any
@@ -323,7 +330,7 @@ func RunC15(tier string) int {
 				for j, o := range hists[i] {
 					es[j] = alpha[o]
 				}
-				args[i] = C15Arg{Entries: es, Format: pl.format, UID: pl.uid}
+				args[i] = C15Arg{Entries: es, Format: pl.format, UID: pl.uid, Members: pl.members}
 				return args[i]
 			}, func(i int, r core.Result) {
 				var out C15Out
@@ -333,7 +340,7 @@ func RunC15(tier string) int {
 					mapArgs[pl.uid] = append(mapArgs[pl.uid], args[i])
 					mapDesc[pl.uid] = append(mapDesc[pl.uid], fmt.Sprintf("format=%v uid=%d archive [%s]", tar.Format(pl.format), pl.uid, tarx.Names(args[i].Entries)))
 				}
-				desc := fmt.Sprintf("format=%v uid=%d archive [%s] err=%q", tar.Format(pl.format), pl.uid, tarx.Names(args[i].Entries), out.Err)
+				desc := fmt.Sprintf("format=%v uid=%d gzip-members=%d archive [%s] err=%q", tar.Format(pl.format), pl.uid, map[bool]int{false: 1, true: 2}[pl.members], tarx.Names(args[i].Entries), out.Err)
 				switch {
 				case out.BuildErr != "":
 					rep.NoVerdict++
@@ -369,7 +376,7 @@ func RunC15(tier string) int {
 		if st.Capped {
 			rep.Exhaustive = false
 		}
-		planStats = append(planStats, map[string]any{"format": fmt.Sprint(tar.Format(pl.format)), "uid": pl.uid, "alphabet": len(alpha), "depth_completed": st.Depth,
+		planStats = append(planStats, map[string]any{"format": fmt.Sprint(tar.Format(pl.format)), "uid": pl.uid, "gzip_members": map[bool]int{false: 1, true: 2}[pl.members], "alphabet": len(alpha), "depth_completed": st.Depth,
 			"depth_planned": pl.depth, "states": st.States, "transitions": st.Transitions, "terminal": st.Terminal, "capped": st.Capped})
 		fmt.Printf("  plan format=%v uid=%d alphabet=%d depth=%d/%d: transitions=%d terminal=%d capped=%v\n", tar.Format(pl.format), pl.uid, len(alpha), st.Depth, pl.depth, st.Transitions, st.Terminal, st.Capped)
 	}
